@@ -179,6 +179,9 @@ pub struct LiveActor {
     /// Sync state per replica and peer
     state: NamespaceStates,
     metrics: Arc<Metrics>,
+    /// Verification hook: when set, `sync_with_peer` records the dial here instead of connecting.
+    #[cfg(iroh_docs_verif)]
+    verif_dials: Option<Vec<(NamespaceId, PublicKey, SyncReason)>>,
 }
 impl LiveActor {
     /// Create the live actor.
@@ -217,6 +220,8 @@ impl LiveActor {
             queued_hashes: Default::default(),
             hash_providers: Default::default(),
             metrics,
+            #[cfg(iroh_docs_verif)]
+            verif_dials: None,
         })
     }
 
@@ -363,6 +368,11 @@ impl LiveActor {
     #[instrument("connect", skip_all, fields(peer = %peer.fmt_short(), namespace = %namespace.fmt_short()))]
     fn sync_with_peer(&mut self, namespace: NamespaceId, peer: PublicKey, reason: SyncReason) {
         if !self.state.start_connect(&namespace, peer, reason) {
+            return;
+        }
+        #[cfg(iroh_docs_verif)]
+        if let Some(dials) = self.verif_dials.as_mut() {
+            dials.push((namespace, peer, reason));
             return;
         }
         let endpoint = self.endpoint.clone();
@@ -1002,5 +1012,146 @@ mod tests {
         drop(a_rx);
         drop(b_rx);
         subscribers.send(Event::NeighborUp(pk)).await;
+    }
+}
+
+/// Verification hooks: drive the real coordination handlers of a [`LiveActor`] that is not
+/// running its loop, with synthetic session results (only with `--cfg iroh_docs_verif`).
+#[cfg(iroh_docs_verif)]
+#[allow(missing_docs, missing_debug_implementations)]
+pub mod verif {
+    use super::*;
+    use crate::net::Timings;
+
+    /// How a synthetic connect / accept task ended.
+    #[derive(Debug, Clone, Copy, PartialEq, Eq)]
+    pub enum TaskEnd {
+        Ok,
+        /// `ConnectError::RemoteAbort(AlreadySyncing)` / `AcceptError::Abort { AlreadySyncing }`
+        AbortAlreadySyncing,
+        AbortNotFound,
+        /// any other failure (connection lost, protocol error)
+        Failed,
+    }
+
+    /// Coordination state of a (document, peer) pair as seen from outside.
+    #[derive(Debug, Clone, Copy, PartialEq, Eq)]
+    pub enum Snapshot {
+        NotSyncing,
+        Idle { resync: bool },
+        Connect { reason: SyncReason, resync: bool },
+        Accept { resync: bool },
+    }
+
+    pub struct Node {
+        actor: LiveActor,
+        _inbox_tx: mpsc::Sender<ToLiveActor>,
+    }
+
+    fn finished(namespace: NamespaceId, peer: PublicKey) -> SyncFinished {
+        SyncFinished {
+            namespace,
+            peer,
+            outcome: Default::default(),
+            timings: Timings::default(),
+        }
+    }
+
+    impl Node {
+        pub fn new(
+            sync: SyncHandle,
+            endpoint: Endpoint,
+            gossip: Gossip,
+            bao_store: Store,
+            downloader: Downloader,
+        ) -> Result<Self> {
+            let (tx, rx) = mpsc::channel(64);
+            let mut actor = LiveActor::new(
+                sync,
+                endpoint,
+                gossip,
+                bao_store,
+                downloader,
+                rx,
+                tx.clone(),
+                Arc::new(Metrics::default()),
+            )?;
+            actor.verif_dials = Some(Vec::new());
+            Ok(Node {
+                actor,
+                _inbox_tx: tx,
+            })
+        }
+
+        pub fn id(&self) -> PublicKey {
+            self.actor.endpoint.id()
+        }
+
+        /// Put the document into the set of syncing documents (as `start_sync` does).
+        pub fn set_syncing(&mut self, namespace: NamespaceId) {
+            self.actor.state.insert(namespace);
+        }
+
+        /// The real `sync_with_peer` (dial recorded, not performed). Returns whether it dialed.
+        pub fn sync_with_peer(&mut self, namespace: NamespaceId, peer: PublicKey, reason: SyncReason) -> bool {
+            let before = self.actor.verif_dials.as_ref().map(|d| d.len()).unwrap_or(0);
+            self.actor.sync_with_peer(namespace, peer, reason);
+            self.actor.verif_dials.as_ref().map(|d| d.len()).unwrap_or(0) > before
+        }
+
+        /// The real `accept_sync_request`.
+        pub fn accept_sync_request(&mut self, namespace: NamespaceId, peer: PublicKey) -> AcceptOutcome {
+            self.actor.accept_sync_request(namespace, peer)
+        }
+
+        /// The real `on_sync_via_connect_finished` with a synthetic result.
+        pub async fn connect_finished(&mut self, namespace: NamespaceId, peer: PublicKey, reason: SyncReason, end: TaskEnd) {
+            let res = match end {
+                TaskEnd::Ok => Ok(finished(namespace, peer)),
+                TaskEnd::AbortAlreadySyncing => Err(ConnectError::remote_abort(AbortReason::AlreadySyncing)),
+                TaskEnd::AbortNotFound => Err(ConnectError::remote_abort(AbortReason::NotFound)),
+                TaskEnd::Failed => Err(ConnectError::sync(anyhow::anyhow!("synthetic failure"))),
+            };
+            self.actor
+                .on_sync_via_connect_finished(namespace, peer, reason, res)
+                .await
+        }
+
+        /// The real `on_sync_via_accept_finished` with a synthetic result.
+        pub async fn accept_finished(&mut self, namespace: NamespaceId, peer: PublicKey, end: TaskEnd) {
+            let res = match end {
+                TaskEnd::Ok => Ok(finished(namespace, peer)),
+                TaskEnd::AbortAlreadySyncing => Err(AcceptError::Abort {
+                    peer,
+                    namespace,
+                    reason: AbortReason::AlreadySyncing,
+                }),
+                TaskEnd::AbortNotFound => Err(AcceptError::Abort {
+                    peer,
+                    namespace,
+                    reason: AbortReason::NotFound,
+                }),
+                TaskEnd::Failed => Err(AcceptError::sync(peer, Some(namespace), anyhow::anyhow!("synthetic failure"))),
+            };
+            self.actor.on_sync_via_accept_finished(res).await
+        }
+
+        /// Dials recorded since the last call.
+        pub fn take_dials(&mut self) -> Vec<(NamespaceId, PublicKey, SyncReason)> {
+            self.actor
+                .verif_dials
+                .as_mut()
+                .map(std::mem::take)
+                .unwrap_or_default()
+        }
+
+        pub fn snapshot(&mut self, namespace: NamespaceId, peer: PublicKey) -> Snapshot {
+            match self.actor.state.verif_peek(&namespace, peer) {
+                None => Snapshot::NotSyncing,
+                Some((None, resync)) => Snapshot::Idle { resync },
+                Some((Some(Origin::Accept), resync)) => Snapshot::Accept { resync },
+                Some((Some(Origin::Connect(reason)), resync)) => Snapshot::Connect { reason, resync },
+            }
+        }
     }
 }
